@@ -4,13 +4,15 @@
 # each reported in /verif/seeded/<SEEDED-ID>/meta.json ("detection"), and always undoes the change.
 set -u
 SID="$1"; TIER="$2"; shift 2
-PATCH="/verif/seeded/$SID/patch.diff"
+VROOT="$(cd "$(dirname "$0")/.." && pwd)"
+PATCH="$VROOT/seeded/$SID/patch.diff"
 [ -f "$PATCH" ] || PATCH="$SID"
-cd /repo || exit 2
-if ! git diff --quiet; then echo "refusing: /repo working tree is dirty"; exit 2; fi
+REPO="$(readlink -f "$VROOT/petgraph-src")"   # /repo, or the snapshot a `vp run --with-repo` points the link at
+cd "$REPO" || exit 2
+if ! git diff --quiet; then echo "refusing: $REPO working tree is dirty"; exit 2; fi
 git apply "$PATCH" || { echo "patch does not apply"; exit 2; }
-trap 'git -C /repo checkout -- . ; echo "[/repo restored]"' EXIT
-cd /verif
+trap 'git -C "$REPO" checkout -- . ; echo "[$REPO restored]"' EXIT
+cd "$VROOT"
 export VERIF_EVIDENCE_DIR=/tmp/verif_seeded_evidence; mkdir -p "$VERIF_EVIDENCE_DIR"   # keep /verif/evidence for the real tree
 for id in "$@"; do
   out=$(timeout 1800 ./check "$id" --tier "$TIER" 2>&1); rc=$?
@@ -19,11 +21,11 @@ for id in "$@"; do
   echo "== $id exit=$rc violation_lines=$nv"
   echo "   $first" | cut -c1-400
   echo "$out" | grep -E "tier=|MACHINERY" | tail -2 | cut -c1-300
-  if [ -f "/verif/seeded/$SID/meta.json" ]; then
-    python3 - "$SID" "$id" "$TIER" "$rc" "$first" <<'PY'
+  if [ -f "$VROOT/seeded/$SID/meta.json" ]; then
+    python3 - "$VROOT/seeded/$SID/meta.json" "$id" "$TIER" "$rc" "$first" <<'PY'
 import json, sys
 sid, cid, tier, rc, first = sys.argv[1:6]
-p = f"/verif/seeded/{sid}/meta.json"
+p = sid
 m = json.load(open(p))
 m.setdefault("detection", {})[f"{cid}/{tier}"] = {"exit": int(rc), "detected": int(rc) == 1, "first_violation": first.strip()}
 json.dump(m, open(p, "w"), indent=1)
